@@ -647,6 +647,14 @@ func (e *SpecEnv) resolveType(x ast.Expr) types.Type {
 					}
 				}
 			}
+			// the alias names another package in another file of this package
+			for _, p := range e.importedPkgs(id.Name) {
+				if o := p.Scope().Lookup(x.Sel.Name); o != nil {
+					if tn, ok := o.(*types.TypeName); ok {
+						return tn.Type()
+					}
+				}
+			}
 		}
 		specFail("unknown type %s", exprString(x))
 	case *ast.StarExpr:
@@ -868,6 +876,15 @@ func (e *SpecEnv) call(x *ast.CallExpr) T {
 					ref = slBase(v.S)
 				}
 				return boolT(sAnd(sLe(e.old.next, ref), sLt(ref, e.cur.next)))
+			case "storage":
+				// storage(s): the whole backing array of slice s as one value (== compares it)
+				v := e.eval(x.Args[0])
+				sl, ok := v.GT.Underlying().(*types.Slice)
+				if !ok {
+					specFail("storage() of a non-slice")
+				}
+				arr, es := e.g.elemsArr(sl.Elem())
+				return mk(sel(e.g.arr(e.cur, arr, es), slBase(v.S)), es, nil)
 			case "allocated":
 				v := e.eval(x.Args[0])
 				ref := v.S
